@@ -1,7 +1,7 @@
 """C17 - the bridge listens exactly while running and leaves nothing behind.
 
 Model checking of the bridge lifecycle on real UDP sockets: every sequence of actions up to depth D
-(quick 4, thorough 6 on two ports / 5 on three) over
+(quick 4 on one and two ports, 3 on three; thorough 6 on one port, 5 on two, 4 on three) over
     start | stop | async-with (body sends a broadcast) | async-with whose body raises |
     send a valid broadcast to port i | occupy port i with a foreign socket | release port i
 and, after every action, on every configured port:
@@ -365,7 +365,7 @@ def inflight(res, nports, k, how, ndg):
 
 
 def plan(tier):
-    return [(1, 4 if tier == "quick" else 6), (2, 4 if tier == "quick" else 6)] + ([(3, 5)] if tier == "thorough" else [(3, 3)])
+    return [(1, 4 if tier == "quick" else 6), (2, 4 if tier == "quick" else 5)] + ([(3, 4)] if tier == "thorough" else [(3, 3)])
 
 
 def jobs(tier, seed):
